@@ -8,3 +8,6 @@ open LhasaV.Props.C07
 #print axioms crc16_burst
 #print axioms crc_linear
 #print axioms single_bit_detected
+#print axioms check_iff_all
+#print axioms extract_iff_all
+#print axioms truncation_bad_all
